@@ -233,6 +233,7 @@ class Write:
                             sel = mem[key0] if spelling == 'setitem' else getattr(mem, spelling)[key0]
                             if isinstance(sel, D.DimArray) and sel.ndim > 0:
                                 v = D.DimArray(np.array(np.broadcast_to(v, sel.shape), dtype=float), axes=[ax.copy() for ax in sel.axes])
+                                v.attrs['note'] = 'metadata of the assigned value'      # an assignment changes values, not the variable's metadata
                         except Exception: pass
                     def assign(x):
                         key = idx if not (isinstance(idx, tuple) and len(idx) == 1) else idx[0]
